@@ -915,7 +915,9 @@ class XsdElement(XsdComponent, ParticleMixin,
                 # XPath processor, e.g. for a malformed xsi:type on a selected element.
                 context.validation_error(validation, self, err, obj)
             else:
-                if any(x is not None for x in fields) or nilled:
+                # Only the nodes for which all the fields evaluate to a value belong
+                # to the qualified node set of a unique or keyref constraint.
+                if all(x is not None for x in fields) or nilled:
                     try:
                         counter.increase(fields)
                     except ValueError as err:
